@@ -158,6 +158,7 @@ func ParseFileWithSourceMap(fileSet *file.FileSet, filename string, javascriptSo
 		return nil, err
 	}
 
+	inline := false
 	if sourcemapSource == nil {
 		lines := bytes.Split(src, []byte("\n"))
 		lastLine := lines[len(lines)-1]
@@ -166,6 +167,7 @@ func ParseFileWithSourceMap(fileSet *file.FileSet, filename string, javascriptSo
 			if len(bits) == 2 {
 				if d, errDecode := base64.StdEncoding.DecodeString(string(bits[1])); errDecode == nil {
 					sourcemapSource = d
+					inline = true
 				}
 			}
 		}
@@ -173,7 +175,12 @@ func ParseFileWithSourceMap(fileSet *file.FileSet, filename string, javascriptSo
 
 	sm, err := ReadSourceMap(filename, sourcemapSource)
 	if err != nil {
-		return nil, err
+		if !inline {
+			return nil, err
+		}
+		// The directive is only a comment of the program: a payload that is
+		// not a source map must not make valid source text unparsable.
+		sm = nil
 	}
 
 	base := 1
